@@ -381,6 +381,16 @@ def _end_of_instant(self):
         leaked = [o for o, ev in self.open_toks[nid] if o not in awaited]
         if leaked:
             self.instant_viol.append(("C10", "leaked-token", f"{kind} {nid} at t={now}: reservation tokens {leaked} are neither used, cancelled nor awaited"))
+            # a space request left behind by a node (waiting or granted, awaited by nobody) takes a place of that out-edge for nobody as soon as
+            # there is room: the edge then refuses items although it has room, and a blocking node waits in front of it (C09: "… waits until an
+            # out-edge its policy allows accepts it" - the edge would accept, the stale request is in the way)
+            for o, ev in self.open_toks[nid]:
+                if o in leaked:
+                    st = getattr(ev, "resourcename", None)
+                    if st is not None and any(ev is x for x in list(getattr(st, "reserve_put_queue", [])) + list(getattr(st, "reservations_put", []))):
+                        self.instant_viol.append(("C09", "stale-space-request", f"{kind} {nid} at t={now}: its space request {o} is neither used, cancelled nor awaited: "
+                                                  f"it will hold a place of that out-edge for nobody, and the node's items wait although the edge has room"))
+                        break
             # a GRANTED retrieval that nobody will ever use keeps its item out of everybody's reach: the item is in no place the flow can
             # still take it from (C03: "… every generated item ends up received by a sink or counted as discarded")
             for o, ev in self.open_toks[nid]:
